@@ -85,7 +85,7 @@ struct DtxSim {
     double frame_rms = sqrt(e2 / (double)std::max<size_t>(1, pcm.size()));
     // LOUD = unmistakable activity: an AC source family at >= -26 dBFS and within 6 dB of the loudest frame so far (the detectors
     // judge activity relative to the running peak level, and a DC offset is no activity at all)
-    bool ac_family = S.src.fam == SRC_TONES || S.src.fam == SRC_SWEEP || S.src.fam == SRC_VOICED || S.src.fam == SRC_NOISE || S.src.fam == SRC_SQUARE || S.src.fam == SRC_MUSIC || S.src.fam == SRC_STEREO;
+    bool ac_family = S.src.fam == SRC_TONES || S.src.fam == SRC_SWEEP || S.src.fam == SRC_VOICED || S.src.fam == SRC_NOISE || S.src.fam == SRC_SQUARE || S.src.fam == SRC_MUSIC || S.src.fam == SRC_STEREO || S.src.fam == SRC_STEADYVOICED || S.src.fam == SRC_ANTIPHASE;
     if (ac_family && frame_rms > max_rms) max_rms = frame_rms;
     bool loud = !silent && ac_family && frame_rms >= 0.05 && frame_rms >= 0.5 * max_rms;
     // ---- ground truth bookkeeping
@@ -144,8 +144,8 @@ struct DtxSim {
         // ---- O4: the first frame of renewed activity is coded normally
         // (precondition: an abrupt onset at or above the level of the previous burst and above -26 dBFS; a fade-in or a quieter
         //  signal is legitimately judged inactive by the detectors for a frame or more)
-        if (first_of_burst && frame_rms >= 0.05 && burst_amp >= prev_burst_amp && (burst_fam == SRC_TONES || burst_fam == SRC_MUSIC || burst_fam == SRC_NOISE || burst_fam == SRC_SQUARE || burst_fam == SRC_SWEEP))
-          REPORT(run, prop, "first_active_frame_sent_as_dtx", "family %s amp %lld t=%.0fms frame_ms=%.1f cplx=%d fs=%d", kSrcName[burst_fam], (long long)burst_amp, t0 / 48.0, d48 / 48.0, m_complexity, L.fs);
+        if (first_of_burst && frame_rms >= 0.05 && burst_amp >= prev_burst_amp && (burst_fam == SRC_TONES || burst_fam == SRC_MUSIC || burst_fam == SRC_NOISE || burst_fam == SRC_SQUARE || burst_fam == SRC_SWEEP || burst_fam == SRC_STEADYVOICED || burst_fam == SRC_ANTIPHASE))
+          REPORT(run, prop, burst_fam == SRC_ANTIPHASE && L.ch == 2 && toc_mode(pkt[0]) != 2 ? "first_active_frame_sent_as_dtx_antiphase_stereo_silk" : "first_active_frame_sent_as_dtx", "family %s amp %lld t=%.0fms frame_ms=%.1f cplx=%d fs=%d", kSrcName[burst_fam], (long long)burst_amp, t0 / 48.0, d48 / 48.0, m_complexity, L.fs);
         // ---- O1 (lower bound): no DTX packet lies wholly inside the 200 ms hang-over after activity stops
         if (analysis_cfg && in_silence && silent && !onset_was_seen && dtx_since48 >= 0 && dtx_since48 <= silence_start48 && last_ctl48 <= silence_start48) {
           run.count("onset_checked");
@@ -265,6 +265,7 @@ Plan gen(uint64_t seed, int tier) {
     int64_t seg = (int64_t)r.pick({100, 190, 200, 210, 400, 600, 610, 800, 1000, 1500, 2500, (int)r.range(0, 5000)}) * 48;
     if (burst) {
       int fam = r.pick({(int)SRC_TONES, (int)SRC_VOICED, (int)SRC_MUSIC, (int)SRC_NOISE, (int)SRC_SQUARE, (int)SRC_SWEEP, (int)SRC_VOICED, (int)SRC_MUSIC});
+      if (ch == 2 && r.chance(0.12)) fam = r.chance(0.5) ? (int)SRC_ANTIPHASE : (int)SRC_STEADYVOICED;
       int64_t amp = r.pick({100, 300, 500, 900});
       if (r.chance(0.15)) amp = r.pick({1, 10, 30});
       last_amp = amp;
